@@ -624,12 +624,14 @@ impl Datamodel for RFsmExpressionDatamodel {
                     _ => {
                         self.log("Resulting value is not a supported collection.");
                         self.internal_error_execution();
+                        return false;
                     }
                 }
                 true
             }
             Err(e) => {
                 self.log(&e.to_string());
+                self.internal_error_execution();
                 false
             }
         }
